@@ -132,4 +132,26 @@ theorem c06_replace_names (sorted : List Repl) (inner : SResult) (hd : DeclOK 0 
 ReplaceSource announces as `nm` -/
 example : annN (replaceStream (sortRepls [⟨2, 3, [88], some [110, 109], 1⟩]) (streamOriginal [97, 32, 98] [102] ⟨true, false⟩)).evs = [[110, 109]] := by decide
 
+
+/-- **C06, ReplaceSource, the exact name of replacement content**: the first line of a replacement's content carries the name
+given with the replacement — resolved through the ReplaceSource's own announcements — whenever the replacement has one and the
+spot it is spliced into is mapped; otherwise it carries the name of the inner segment it is spliced into (the walker's
+`l.orig.name`, which `OrigName` / `origName_adv` show is the inner chunk's name), translated by `name_index_mapping` (which `RN`
+shows resolves to the inner stream's name).  (`rName` is the code of replace_source.rs:529-545.) -/
+theorem c06_replacement_name_exact (RNs : List Text) (r : Repl) (st : RSt) (l : LSt) (N IN : List Text) (h : RN RNs st N IN) :
+    (∀ nm x, r.name = some nm → l.orig = some x →
+        (N ++ annN (rName r st l).2.1)[(rName r st l).2.2.getD 0]? = some nm ∧ ((rName r st l).2.2).isSome = true)
+    ∧ ((r.name = none ∨ l.orig = none) → (rName r st l).2.2 = (l.orig.bind (·.name)).bind fun n => st.nim[n]?) :=
+  rName_exact RNs r st l N IN h
+
+/-- … and only that first line carries it: the following lines of the content are delivered without a name (as in
+webpack-sources; the property's "carries the name" is read for the segment the content starts with, which is what the oracle
+evaluates) -/
+theorem c06_replacement_name_first_line (gc : Nat) (orig : Option Orig) (cls : List Text) (nameIdx : Option Nat) (st : RSt) (line : Int) :
+    (chunkMs (emitContent gc orig cls nameIdx st line).2.1).map (fun m => m.orig.bind (·.name))
+      = match cls with
+        | [] => []
+        | _ :: rest => (orig.bind fun _ => nameIdx) :: rest.map fun _ => none :=
+  emitContent_names gc orig cls nameIdx st line
+
 end Rs
